@@ -130,6 +130,7 @@ Section SeqOrder.
     rewrite !run_tells. split; exact E.
   Qed.
 End SeqOrder.
+Arguments tell1 {V}. Arguments seq_tell_many {V}. Arguments tells {V}.
 
 (* ================================================================== *)
 (* Part 3: averaging specification                                      *)
